@@ -41,7 +41,11 @@ IpQuery(rows, q) ==
 IpViol(r) ==
     LET bad == {i \in DOMAIN r.queries : IpQuery(r.rows, r.queries[i]) # {}}
         first == r.rows[1][1]   last == r.rows[Len(r.rows)][1]
+        \* a distance tabulated twice (track and road row, e.g. 5000 and 5K) has two open bests: pairs with an
+        \* end point at such a distance are not compared
+        Multi == {x \in Dists(r.rows) : Cardinality(RowsAt(r.rows, x)) > 1}
         inc == {i \in 1..(Len(r.queries) - 1) :
+                  r.queries[i][1] \notin Multi /\ r.queries[i + 1][1] \notin Multi /\
                   r.queries[i][1] >= first /\ r.queries[i + 1][1] <= last /\ r.queries[i][1] < r.queries[i + 1][1] /\
                   ~Raised(r.queries[i][3]) /\ ~Raised(r.queries[i + 1][3]) /\ ~FLess(r.queries[i][3], r.queries[i + 1][3])}
     IN <<UNION {IpQuery(r.rows, r.queries[i]) : i \in bad} \cup (IF inc = {} THEN {} ELSE {"open_best_does_not_increase_with_distance"}),
